@@ -156,12 +156,70 @@ IMPORTS = ("From KP Require Import model.Base model.ServiceMap model.Seq model.H
            "Local Open Scope N_scope.\n")
 
 
+def gen_held(rnd, n):
+    """Requests that are being held by a pause when the stop arrives (a second pause in between in half of the cases): once the
+    stop has taken effect each of them must have been answered 503 with the rendered message (200 for GET health), none forwarded,
+    none left to run into the pause timeout; after a resume the service forwards again."""
+    H = m4.H
+    out = []
+    for i in range(n):
+        custom = i % 2 == 1
+        to = rnd.randrange(len(m4.TOPTS))
+        health = m4.TOPTS[to]["health_path"]
+        prefix = rnd.choice([None, None, b"/app"])
+        msg = gen_msg(rnd, False)
+        dep = {"op": "deploy", "id": "c0", "name": H(b"web"), "hosts": [H(b"a.example.com")], "prefixes": [H(prefix)] if prefix else [],
+               "tls": False, "tls_redirect": False, "strip": rnd.random() < 0.5, "cert": "none", "pages": "good" if custom else "none",
+               "targets": [{"name": H(b"ta:80"), "probes": ["ok"]}], "deploy_timeout": m4.DEPLOY_TIMEOUT, "drain_timeout": SEC,
+               "topts": {k: (H(v) if isinstance(v, bytes) else v) for k, v in m4.TOPTS[to].items() if k != "tag"}}
+        steps, reqs = [dep], []
+
+        def request(kind):
+            rid = "h%d" % len(reqs)
+            base = prefix or b""
+            if kind == "health":
+                method, uri = "GET", (health if not prefix else rnd.choice([health, base + health]))
+                # only a GET whose path is exactly the health path is exempt; under a prefix the service is not even routed for it
+                if prefix and uri == health:
+                    uri = base + b"/x"
+                    kind = "plain"
+                elif prefix:
+                    kind = "plain"       # /app/up is not the health path /up
+            if kind == "plain":
+                method = rnd.choice(["GET", "POST", "PUT", "HEAD"]) if not prefix else rnd.choice(["GET", "POST"])
+                uri = base + rnd.choice([b"/", b"/x?y=1", b"/docs/a"]) if not (prefix and reqs and False) else base + b"/x"
+            if kind == "posthealth":
+                method, uri = "POST", base + health
+            steps.append({"op": "request", "id": rid, "async": True, "host": H(b"a.example.com"), "uri": H(uri), "tls": False,
+                          "method": method, "headers": []})
+            reqs.append({"id": rid, "health": kind == "health" and method == "GET", "method": method})
+        steps.append({"op": "pause", "id": "c1", "name": H(b"web"), "fail_after": rnd.choice([20, 30]) * SEC, "drain_timeout": SEC})
+        for _ in range(rnd.randint(1, 3)):
+            request(rnd.choice(["plain", "plain", "health", "posthealth"]))
+        steps.append({"op": "sleep", "ns": rnd.choice([SEC // 10, SEC])})
+        if i % 4 >= 2:      # the pause is repeated while requests are waiting
+            steps.append({"op": "pause", "id": "c2", "name": H(b"web"), "fail_after": rnd.choice([20, 40]) * SEC, "drain_timeout": SEC})
+            for _ in range(rnd.randint(0, 2)):
+                request(rnd.choice(["plain", "health"]))
+            steps.append({"op": "sleep", "ns": SEC // 2})
+        steps.append({"op": "stop", "id": "c3", "name": H(b"web"), "msg": H(msg), "drain_timeout": SEC})
+        n_held = len(reqs)
+        steps.append({"op": "sleep", "ns": SEC})
+        request("plain")             # arrives while stopped
+        steps.append({"op": "sleep", "ns": 45 * SEC})       # anything still waiting runs into its pause timeout (504)
+        steps.append({"op": "resume", "id": "c4", "name": H(b"web")})
+        steps.append({"op": "request", "id": "after", "async": False, "host": H(b"a.example.com"), "uri": H((prefix or b"") + b"/x"),
+                      "tls": False, "method": "GET", "headers": []})
+        out.append({"scenario": {"steps": steps}, "reqs": reqs, "custom": custom, "msg": msg, "held": n_held, "repeat": i % 4 >= 2})
+    return out
+
+
 def run(tier, seed):
     res = Result("C08", tier, seed)
     work = Work("C08")
     try:
         t_phase = [time.time()]
-        ok, blog = coq_build(["props/C08.vo", "corr/C08corr.vo"])
+        ok, blog = coq_build(["props/C08.vo", "corr/C08corr.vo", "corr/C08held.vo"])
         t_phase.append(time.time())
         proofs_ok, pa = proof_obligations(work, res, "C08.v", ok, blog)
         gate = m4x.gate_for(["props/C08.v", "corr/C08corr.v"])
@@ -199,6 +257,39 @@ def run(tier, seed):
                     "(stopped_answers_from ig fixed init_state (upto_panic h), stopped_judged_from [] (upto_panic h)))")
             results = m4x.coq_map(work, IMPORTS, defs, terms, expr, "C08", shard=4)
         t_phase.append(time.time())
+        # ---- requests held by a pause when the stop arrives (corr/C08held.v)
+        held = gen_held(random.Random(seed * 31 + 5), 8 if tier == "quick" else 80)
+        held_bad, held_n = [], 0
+        if harness_ok and ok and page is not None:
+            h_ok, h_out, h_outs = m4x.go_run(work, [x["scenario"] for x in held])
+            if not h_ok:
+                harness_ok, gout = False, h_out
+            else:
+                items = []
+                for x, o in zip(held, h_outs):
+                    rs = {r["id"]: r for r in o["results"]}
+                    obs = []
+                    for q in x["reqs"]:
+                        r = rs.get(q["id"], {})
+                        body = bytes.fromhex(r.get("body", "")) if q["method"] != "HEAD" else None
+                        obs.append("(%s, (%d)%%N, %s, %s)" % (bool_lit(q["health"]), r.get("status", 0), bool_lit(bool(r.get("served_by"))),
+                                                             str_lit(body) if body is not None else "render503 (e_page env) (custom_of_pages env %s) %s"
+                                                             % (bool_lit(x["custom"]), str_lit(x["msg"]))))
+                    held_n += len(obs)
+                    items.append("(%s, %s, [%s])" % (bool_lit(x["custom"]), str_lit(x["msg"]), "; ".join(obs)))
+                defs_h = ("Definition pg_pre : str := %s.\nDefinition pg_suf : str := %s.\n"
+                          "Definition env := mkEnv (mkPage pg_pre %s %s %s pg_suf) (%s, %s).\n"
+                          % (str_lit(page[0]), str_lit(page[4]), str_lit(page[1]), str_lit(page[2]), str_lit(page[3]),
+                             str_lit(CUSTOM[0]), str_lit(CUSTOM[1])))
+                rows = m4x.coq_map(work, IMPORTS.replace("corr.C08corr.", "corr.C08corr corr.C08held."), defs_h, items,
+                                   "fun x => let '(c, m, l) := x in c08_held_bad env c m l", "C08held", shard=4)
+                for j, bad in enumerate(rows):
+                    rs = {r["id"]: r for r in h_outs[j]["results"]}
+                    after = rs.get("after", {})
+                    if bad or after.get("status") != 200 or not after.get("served_by"):
+                        held_bad.append((j, bad, after))
+        res.coverage["held_by_a_pause_when_stopped"] = {"scenarios": len(held), "answers_judged": held_n,
+                                                        "with_a_repeated_pause": sum(1 for x in held if x["repeat"]), "bad": len(held_bad)}
         # ---- judge
         mon_fail, disagree = [], []
         n_stopped_model = n_stopped_mon = 0
@@ -270,7 +361,20 @@ def run(tier, seed):
                     "status": rr.get("status"), "served_by": rr.get("served_by"), "location": rr.get("location"),
                     "body_len": len(body), "body_excerpt": (body if len(body) < 400 else body[-400:]).decode("latin-1")})
             return p
-        if mon_fail:
+        if held_bad and not mon_fail:
+            j, bad, after = held_bad[0]
+            x = held[j]
+            rs = {r["id"]: r for r in h_outs[j]["results"]}
+            res.violation("held-%d" % j, {
+                "property": "C08", "seed": seed, "tier": tier,
+                "what": "requests held by a pause when the service was stopped: once the stop has taken effect each must have been answered "
+                        "503 with the rendered message (GET health: 200), none forwarded or left to its pause timeout; after the resume "
+                        "the service must forward again (corr/C08held.c08_held_bad)",
+                "scenario": x["scenario"], "stop_message": x["msg"].decode("latin1"), "custom_page": x["custom"],
+                "wrong_answers": [{"request": x["reqs"][k], "status": rs.get(x["reqs"][k]["id"], {}).get("status"),
+                                   "served_by": rs.get(x["reqs"][k]["id"], {}).get("served_by")} for k in bad],
+                "request_after_resume": {"status": after.get("status"), "served_by": after.get("served_by")}})
+        elif mon_fail:
             j, mon = mon_fail[0]
             res.violation("monitor-%d" % j, replay_payload(j, "monitor c08_monitor false on an implementation history: a request "
                                                               "routed to a stopped service was not answered 503 with the rendered "
